@@ -36,12 +36,11 @@ def log(msg):
     print("[verif] " + msg, file=sys.stderr, flush=True)
 
 
-def _big_stack():
+def _big_stack(want=1 << 30):
     # extracted list functions are not tail recursive: give child processes a large stack
     import resource
     try:
         soft, hard = resource.getrlimit(resource.RLIMIT_STACK)
-        want = 1 << 30
         if hard != resource.RLIM_INFINITY:
             want = min(want, hard)
         resource.setrlimit(resource.RLIMIT_STACK, (want, hard))
@@ -49,9 +48,9 @@ def _big_stack():
         pass
 
 
-def _limits(mem_gb):
+def _limits(mem_gb, stack=1 << 30):
     def f():
-        _big_stack()
+        _big_stack(stack)
         if mem_gb:
             import resource
             try:
@@ -61,12 +60,19 @@ def _limits(mem_gb):
     return f
 
 
+def _stack_for(cmd):
+    # the C++ oracles keep an ordinary stack (64 MB): a runaway recursion then overflows quickly and the
+    # sanitizer can still unwind it; only the extracted OCaml model needs the very large one
+    c = cmd if isinstance(cmd, str) else " ".join(map(str, cmd[:1]))
+    return (64 << 20) if "nifly_oracle-" in c else (1 << 30)
+
+
 def sh(cmd, timeout=1800, cwd=None, inp=None, env=None, mem_gb=None):
     """Run a command, return (rc, stdout, stderr). rc = -9 on timeout. mem_gb: address-space limit
     (not for ASan binaries, which reserve terabytes of virtual memory)."""
     try:
         p = subprocess.run(cmd, cwd=cwd, input=inp, capture_output=True, timeout=timeout, env=env,
-                           shell=isinstance(cmd, str), preexec_fn=_limits(mem_gb))
+                           shell=isinstance(cmd, str), preexec_fn=_limits(mem_gb, _stack_for(cmd)))
         return p.returncode, p.stdout.decode("utf-8", "replace"), p.stderr.decode("utf-8", "replace")
     except subprocess.TimeoutExpired as e:
         out = (e.stdout or b"").decode("utf-8", "replace")
